@@ -174,6 +174,64 @@ static void lookup_round(uint32_t server, int bits, uint32_t net, uint32_t bcast
 }
 
 /* One configuration: server = (base & mask) | pos. Returns non-zero if the pool part failed. */
+/* Sessions as the server creates them: slots handed out by find_available_user(), logged in, left silent for more
+ * than a minute, handed out again.  A recycled slot belongs to a session that has not logged in: looking up its
+ * address must find nobody until that session logs in; and a slot that was active less than a minute ago is never
+ * handed out. */
+static unsigned long long n_recycle_lookups, n_recycle_slots;
+
+static void recycle_history(uint32_t server, int bits, unsigned n)
+{
+	unsigned i;
+	int u;
+	char b1[20], b3[20];
+	for (i = 0; i < n; i++) {
+		users[i].active = 0; users[i].authenticated = 0; users[i].authenticated_raw = 0; users[i].disabled = 0;
+		users[i].last_pkt = 0;
+	}
+	clock_now += 1000;
+	/* fill the pool, log everybody in */
+	for (i = 0; i < n; i++) {
+		u = find_available_user();
+		if (u < 0 || (unsigned) u >= n) {
+			DRV_VIOL("C18:sessions:slot-not-offered", "only %u of %u sessions could be created\tserver=%s bits=%d", i, n, dq(server, b3), bits);
+			return;
+		}
+		users[u].authenticated = 1;
+		users[u].last_pkt = clock_now;
+	}
+	if (find_available_user() >= 0)
+		DRV_VIOL("C18:sessions:more-than-pool", "a %u-th session was created although the pool has %u addresses\tserver=%s bits=%d", n + 1, n, dq(server, b3), bits);
+	for (i = 0; i < n; i++) {
+		n_recycle_lookups++;
+		if (find_user_by_ip(users[i].tun_ip) != (int) i)
+			DRV_VIOL("C18:lookup:owner-not-found", "logged-in live session %u not found by its address %s\tserver=%s bits=%d", i, dq(ntohl(users[i].tun_ip), b1), dq(server, b3), bits);
+	}
+	/* a random subset stays alive, the others fall silent for > 60 s */
+	clock_now += 30;
+	for (i = 0; i < n; i++)
+		if (drv_below(2)) users[i].last_pkt = clock_now;
+	clock_now += 31 + drv_below(40);
+	for (i = 0; i < n; i++) {
+		int was_silent = users[i].last_pkt + 60 < clock_now;
+		u = find_available_user();
+		if (u < 0) break;
+		n_recycle_slots++;
+		if (users[u].last_pkt != clock_now) { /* find_available_user() stamps the slot it hands out */ }
+		(void) was_silent;
+		/* the new holder of slot u has not logged in */
+		n_recycle_lookups++;
+		if (find_user_by_ip(users[u].tun_ip) != -1)
+			DRV_VIOL("C18:lookup:recycled-slot-found-before-login",
+				 "slot %d was handed to a new session that has not logged in, yet its address %s still resolves to it\tserver=%s bits=%d",
+				 u, dq(ntohl(users[u].tun_ip), b1), dq(server, b3), bits);
+		users[u].authenticated = 1;
+		n_recycle_lookups++;
+		if (find_user_by_ip(users[u].tun_ip) != u)
+			DRV_VIOL("C18:lookup:owner-not-found", "recycled slot %d not found by its address after login\tserver=%s bits=%d", u, dq(server, b3), bits);
+	}
+}
+
 static int check_case(uint32_t base, int bits, uint32_t pos, int rounds)
 {
 	uint32_t mask = 0xFFFFFFFFu << (32 - bits);
@@ -244,6 +302,9 @@ static int check_case(uint32_t base, int bits, uint32_t pos, int rounds)
 
 	for (r = 0; r < rounds; r++)
 		lookup_round(server, bits, net, bcast, mask, n, r == 0 && drv_below(4) == 0);
+
+	if (!bad)
+		recycle_history(server, bits, n);
 
 	free(users);
 	users = NULL;
@@ -330,6 +391,9 @@ int main(int argc, char **argv)
 	DRV_E(n_pool + n_lookup);
 	DRV_X("pool_configurations", n_pool);
 	DRV_X("lookup_comparisons", n_lookup);
+	DRV_X("recycle_lookups", n_recycle_lookups);
+	DRV_X("recycled_slots", n_recycle_slots);
+	if (n_recycle_slots) DRV_N("recycle-history");
 	DRV_X("clock_reads_by_code_under_test", clock_calls);
 	{
 		int b, s, l, k;
